@@ -188,9 +188,15 @@ impl GraphEngine {
 
     pub fn begin_read(&self) -> Snapshot {
         let runs = self.published_runs.read().unwrap().clone();
+        #[cfg(nervusdb_verif)]
+        crate::verif_hooks::sched("read.after_runs");
         let segments = self.published_segments.read().unwrap().clone();
+        #[cfg(nervusdb_verif)]
+        crate::verif_hooks::sched("read.after_segments");
         let labels = self.published_labels.read().unwrap().clone();
         let node_labels = self.published_node_labels.read().unwrap().clone();
+        #[cfg(nervusdb_verif)]
+        crate::verif_hooks::sched("read.after_node_labels");
         let (properties_root, stats_root) =
             load_properties_and_stats_roots(&self.properties_root, &self.stats_root);
         build_snapshot_from_published(
@@ -372,6 +378,8 @@ impl GraphEngine {
             }
         }
 
+        #[cfg(nervusdb_verif)]
+        crate::verif_hooks::sched("compact.before_sink");
         let mut current_root = self.properties_root.load(Ordering::SeqCst);
         if !sink_node_props.is_empty() || !sink_edge_props.is_empty() {
             let mut pager = self.pager.write().unwrap();
@@ -474,14 +482,20 @@ impl GraphEngine {
         self.checkpoint_txid.store(up_to_txid, Ordering::SeqCst);
         self.properties_root.store(current_root, Ordering::SeqCst);
         self.stats_root.store(stats_root, Ordering::SeqCst);
+        #[cfg(nervusdb_verif)]
+        crate::verif_hooks::sched("compact.after_roots");
         {
             let mut cur_runs = self.published_runs.write().unwrap();
             *cur_runs = Arc::new(Vec::new());
         }
+        #[cfg(nervusdb_verif)]
+        crate::verif_hooks::sched("compact.after_clear_runs");
         {
             let mut cur_segs = self.published_segments.write().unwrap();
             *cur_segs = new_segments;
         }
+        #[cfg(nervusdb_verif)]
+        crate::verif_hooks::sched("compact.after_segments");
 
         self.manifest_epoch.store(epoch, Ordering::Relaxed);
         if !has_properties {
@@ -1084,14 +1098,20 @@ impl<'a> WriteTxn<'a> {
             }
         }
 
+        #[cfg(nervusdb_verif)]
+        crate::verif_hooks::sched("commit.after_idmap");
         let has_label_mutations = has_new_nodes || has_label_additions || has_label_removals;
         if has_label_mutations {
             self.engine.update_published_node_labels();
         }
+        #[cfg(nervusdb_verif)]
+        crate::verif_hooks::sched("commit.after_labels");
 
         if !run.is_empty() {
             self.engine.publish_run(Arc::new(run));
         }
+        #[cfg(nervusdb_verif)]
+        crate::verif_hooks::sched("commit.after_run");
 
         self.engine.next_txid.fetch_add(1, Ordering::Relaxed);
 
